@@ -15,7 +15,7 @@ CHECKS = {
     'C01': ('E1', 'bounded-exhaustive enumeration of database shapes x configuration grid vs posting-list reference',
             'Every scheme x every point of the supported configuration grid (incl. misaligned-width, wide-keyword and capacity-upper-bound points) x every integer partition of every N<=8 (12 thorough) in both keyword '
             'orders, plus boundary profiles around every block/level/2^k/index-width/case-split length: KeyGen, EDBSetup and a search of EVERY '
-            'stored keyword run on the real code; result compared with DB[w]; one scheme object per configuration reused across the cases of a unit and a per-scheme sweep over all configuration points in one process; the database is altered and encrypted again under the same key by the same object and both indexes are searched; many-keyword profiles ([1]*255..257, [2]*130, [3]*100, 1..30), KiB-long keywords, PiBas identifiers of mixed lengths. Exhaustive over shapes inside the bounds.',
+            'stored keyword run on the real code; result compared with DB[w]; one scheme object per configuration reused across the cases of a unit and a per-scheme sweep over all configuration points in one process; the database is altered and encrypted again under the same key by the same object and both indexes are searched; many-keyword profiles ([1]*255..257, [2]*130, [3]*100, 1..30), KiB-long keywords, PiBas identifiers of mixed lengths, posting lists shared as one object, keywords with an empty posting list (refused or correct), bytes-like keyword objects, keyword / OrderedDict / dict-subclass construction. Exhaustive over shapes inside the bounds.',
             'One DRBG value assignment per shape and seed; shapes above the bounds are not covered.', 'DESIGN.md 4/C01'),
     'C02': ('E1', 'bounded-exhaustive enumeration of databases x adversarially close absent keywords',
             'All partitions of N<=6 (9) per scheme/configuration point x the absent-keyword family (prefix, suffix, +byte, +NUL, bit flips, '
@@ -27,27 +27,27 @@ CHECKS = {
             'pickle is trusted as a container format; N<=5 (8).', 'DESIGN.md 4/C03'),
     'C04': ('E1', 'bounded-exhaustive enumeration + byte-level inspection of serialized index and tokens',
             'All partitions of N<=6 (9) x 2 content variants (distinct ids / one id under every keyword): substring absence of every keyword '
-            'and identifier, pairwise-distinct ciphertext entries inside one index, disjoint entries across two setups of the same (K, DB) by one scheme object and a third by a brand-new object, incl. setups of 16..256 postings.',
+            'and identifier, pairwise-distinct ciphertext entries inside one index, disjoint entries across two setups of the same (K, DB) by one scheme object and a third by a brand-new object, incl. setups of 16..256 postings; the same identifier twice in a list; two deep / pickled copies of one scheme object.',
             'Decided for DRBG values only; ciphertext entries located by position per scheme.', 'DESIGN.md 4/C04'),
     'C05': ('E1', 'exhaustive enumeration of all list-length profiles, grouped by public size parameter, generic shape walk',
-            'ALL partitions of every N<=12 (16) per scheme/configuration point, two content assignments each, plus equal-N families at N=600 and 1025 (3000), grouped by pi_S: the generic '
+            'ALL partitions of every N<=12 (16) per scheme/configuration point, two content assignments each, plus equal-N families at N=600 and 1025 (3000), empty-list keywords and Pi2Lev configurations beyond its own guard (refused, or held to the rule), grouped by pi_S: the generic '
             'shape of the unpickled index must be one per class; every padded table has one key length and one value length.',
             'Shape = container sizes and byte-string lengths (what the property defines); N above the bound only at 2^k landmarks.', 'DESIGN.md 4/C05'),
     'C06': ('E1', 'exhaustive enumeration of keyword-order permutations; two-setup placement comparison with recording lists',
             'Label tables: all permutations (<=24) of every partition of N<=6 (8) with <=4 keywords under one key - sortedness and equality on '
-            'common labels; 5400 postings in 60 lists in three keyword orders. Arrays: all profiles with 12..24 array-resident blocks (capped in quick), two setups, slots read by Search must differ; every 4th profile (thorough: all) 10 setups, no single block at one slot in all of them.',
+            'common labels; 5400 postings in 60 lists in three keyword orders. Arrays: all profiles with 12..24 array-resident blocks (capped in quick), two setups, slots read by Search must differ; every 4th profile (thorough: all) 10 setups, no single block at one slot in all of them; DP17 in-bucket order; two copies of one scheme object must not replay a placement.',
             'Chance coincidence <= 1/12! per array case.', 'DESIGN.md 4/C06'),
     'C07': ('E2', 'explicit-state search over search histories (BFS on canonical state + all sequences to depth k, no dedup)',
             'Per scheme x 2 configurations x 3 databases: BFS over (EDB bytes, token bytes, config fingerprint) reaches a fixpoint with one '
-            'state; all 5^k search sequences k<=4 (6) executed without dedup against answers computed by a scheme object that never searched anything else, with a second index of another database under the same key searched inside the histories; inputs (DB with bytes and with bytearray identifiers, cfg dict, key bytes, DEFAULT_CONFIG) compared with deep copies.',
+            'state; all 5^k search sequences k<=4 (6) executed without dedup against answers computed by a scheme object that never searched anything else, with a second index of another database under the same key searched inside the histories; inputs (DB with bytes / bytearray identifiers, tuple posting lists, repeated identifiers, a build refused part-way; cfg dict without scheme entry / with extra entry / reordered; key bytes; DEFAULT_CONFIG) compared with deep copies.',
             'Hidden state outside EDB/token/scheme objects (e.g. module globals) would only be seen through changed answers.', 'DESIGN.md 4/C07'),
     'C08': ('E1', 'bounded-exhaustive enumeration of configuration dictionaries (single + pairwise departures, deletions, names)',
-            'Every single and pairwise departure over the full value domain of every field, every primitive name, every single-field deletion, '
+            'Every single and pairwise departure over the full value domain of every field, every primitive name, every single-field deletion and the empty configuration, '
             'x 5 valid databases: refused loudly or every answer correct; a needed-but-missing field must be refused at build time.',
             'Triples only for length fields (thorough); databases valid for the configuration only.', 'DESIGN.md 4/C08'),
     'C09': ('E3', 'exhaustive enumeration of client-reload / server-restart placements on the virtual network (real client, server, websockets)',
             'All 9 schemes x 2 JSON databases x all 2^6 keep/reload placements over the workflow boundaries x 3 server-restart options; every '
-            'keyword and an absent keyword searched twice; delivered bytes, hex/int/raw/utf8 renderings compared with the JSON database; plus two interleaved services per scheme, patterned keys, all 27 cleanup-timer firings between the networked steps, an early-loaded second client object; the workflow through frontend/client/commands.py itself (JSON files, service by name, printed hex/int results) for 3 databases per scheme; one workflow with a result above 1 MiB.',
+            'keyword and an absent keyword searched twice; delivered bytes, hex/int/raw/utf8 renderings compared with the JSON database; plus two interleaved services per scheme, patterned keys, all 27 cleanup-timer firings between the networked steps, an early-loaded second client object; the workflow through frontend/client/commands.py itself (JSON files, service by name, printed hex/int results) for 3 databases per scheme; one workflow with a result above 1 MiB; name collisions in the CLI; concurrent searches of two services in one client process; sids with URL-special and non-ASCII characters.',
             'One client at a time, hence no scheduling choices; in-memory transport (loopback-TCP replays: mc/loopback.py).', 'DESIGN.md 4/C09'),
     'C10': ('E2', 'explicit-state BFS to fixpoint + all histories to depth k over the real connection handler on the virtual network, 3-state reference model',
             'Alphabet of 15 protocol events (two configs, two indexes, search, a second token under the same correlation value, reconnect before/after the cleanup delay, five foreign sids incl. same-first-8-characters / other case / one character longer or shorter, missing sid, unknown type, three malformed messages, a configuration that cannot be stored) '
@@ -66,30 +66,30 @@ CHECKS = {
             '(thorough: + Pi2Lev, DP17): survivor runs on, dead component restarted on the same directory, probe handshake, client reload, retry rule, rest of the workflow, final searches.',
             'Crash model of the property (no write reordering, no torn 8 KiB chunk); SIGKILL replays of the interposer: mc/loopback.py.', 'DESIGN.md 4/C13'),
     'C14': ('E1', 'exhaustive enumeration of message lengths x key sizes vs independent AES-CBC/PKCS7 computation',
-            'All message lengths 0..200 (0..300 + long) x 3 key sizes x 3 keys; declared-length variants; all wrong key lengths 0..40; constructor domain; 600 (5000) encryptions by one object with pairwise distinct IVs, every IV byte position varying; 3000 (20000) wrong keys per ciphertext; lengths around 256 and 4096.',
+            'All message lengths 0..200 (0..300 + long) x 3 key sizes x 3 keys; declared-length variants; all wrong key lengths 0..40; constructor domain; 600 (5000) encryptions by one object with pairwise distinct IVs, every IV byte position varying; keyword calls, pickled / deep-copied cipher objects; wrong keys one bit away at byte 0, 16 and the last byte; 3000 (20000) wrong keys per ciphertext; lengths around 256 and 4096.',
             'cryptography\'s AES is the trusted reference; keys are DRBG values.', 'DESIGN.md 4/C14'),
     'C15': ('E1', 'exhaustive enumeration of the whole domain {0,1}^n (bijection) + bounded widths',
-            'BitwiseFFX: all 2^n inputs for n=2..12 (13) under 3 keys - bijection and both inverses; 24 non-default constructions (even rounds x digests) for all inputs of n=2..8 (10); 20 keys through one object in three orders; all widths 12..2..12 under ONE key in one process through the PRP wrapper; wide n incl. around 160/320/2047 bits; '
+            'BitwiseFFX: all 2^n inputs for n=2..12 (13) under 3 keys - bijection and both inverses; 24 non-default constructions (even rounds x digests) for all inputs of n=2..8 (10); 20 keys through one object in three orders; messages built by Bitset operators; 9 more digests at small and wide widths; bytes-like arguments of the wrong size; four PRP objects alive at once and their copies; all widths 12..2..12 under ONE key in one process through the PRP wrapper; wide n incl. around 160/320/2047 bits; '
             'Luby-Rackoff: all 65536 two-byte messages, four-byte messages injective on every one-half-exhaustive slice, even lengths 2..64 and 96..4096 sampled; all length contracts.',
             '3 keys per width; wide widths use 20 DRBG inputs.', 'DESIGN.md 4/C15'),
     'C16': ('E1', 'bounded-exhaustive enumeration vs independent RFC 5246 P_hash and counter-mode references',
             'quick: boundary grid of key/message/output lengths per digest; thorough: the full 81x201x200 box per digest; TLS 1.2 vector anchors '
-            'reference and implementation; 2000-pair distinctness; contracts; every call history of length <= 4 over valid/refused calls on one object; outputs of 255..257 blocks and 70000 bytes, KiB messages.',
+            'reference and implementation; 2000-pair distinctness; contracts; every call history of length <= 4 over valid/refused calls on one object; outputs of 255..257 blocks and 70000 bytes, KiB messages; keyword calls, copied objects, four PRF objects alive at once.',
             'hashlib/hmac are the trusted base.', 'DESIGN.md 4/C16'),
     'C17': ('E1', 'bounded-exhaustive enumeration of sizes/capacities/lengths/compositions',
             'Block partition/parse round trips over (identifier size, capacity, list length, block size) grids (thorough: all 40x70 x dense '
-            'lengths), ALL compositions of lengths <=9 (12) for split, all widths 0..41 for int conversions, XOR (random, result-structured and one-byte-exhaustive operands), hex database formats incl. every sequence of 1..4 identifier lengths.',
+            'lengths), ALL compositions of lengths <=9 (12) for split, all widths 0..41 for int conversions, XOR (random, result-structured and one-byte-exhaustive operands), hex database formats incl. every sequence of 1..4 identifier lengths, posting lists as tuple / generator / iterator, composed vs decomposed Unicode keywords.',
             'Identifier bytes are DRBG values plus awkward members.', 'DESIGN.md 4/C17'),
     'C18': ('E1', 'bounded-exhaustive enumeration vs list-of-bits reference model',
             'Every Bitset operation named by the property is executed for every value of every length 0..8 (all operand pairs for '
             'binary operators, all shifts, all k, all slices) and for boundary/DRBG values of lengths 9..300, and compared with an '
-            'MSB-first list-of-bits model, and every unary operation is applied to every first-level RESULT of every operator (lengths 1..6); exhaustive inside the stated bounds, nothing sampled below length 9.',
+            'MSB-first list-of-bits model, and every unary operation is applied to every first-level RESULT of every operator (lengths 1..6); exhaustive inside the stated bounds, nothing sampled below length 9; plus aliasing (every returned list modified in place), pickle / copy round trips, byte strings that are too wide / empty / carry leading zero bytes.',
             'Trusts the 30-line list model; lengths above 8 are covered by boundary values (0,1,2^k-1,2^k,2^k+1) plus 3 DRBG values per length only.',
             'DESIGN.md 4/C18'),
     'C19': ('E2', 'explicit-state BFS to fixpoint over the real array + undeduplicated depth-bounded DFS, list reference model',
             'For every (len<=3 (4), item_size<=2 (3), items_per_file<=len+2): every event of a ~3k-event alphabet (all indices, all raw slices, '
             'all bad-element positions, close/reopen) applied to every reachable canonical state (cold-cache states included: read-backs leave no trace), complete read-back incl. close+open after every state-changing transition; all histories to depth 3 (4) on larger '
-            'configurations without dedup; configurations with 12 and 70 chunk files.',
+            'configurations without dedup; configurations with 12 and 70 chunk files; slice values as generator / tuple.',
             'Fixpoint only for small arrays; lengths up to 40 only by depth-bounded search (thorough).', 'DESIGN.md 4/C19'),
     'C20': ('E2', 'explicit-state BFS to fixpoint over the real dictionaries + undeduplicated depth-bounded DFS, dict reference model',
             'PickledDict full life cycle and DBMDict within one session: every event applied to every reachable (ordered items, closed) state '
